@@ -36,6 +36,10 @@ CHECKS = {
                 technique="CrossHair symbolic execution (z3) of the real Network.find_duplicate_reaction / remove_reaction on stub reactions with symbolic integer identities (all paths), plus solver-enumerated selections of real Reaction objects for every comparison mode; counterexamples replayed natively",
                 text="For every list of <=4 reactions (as equality patterns of symbolic labels) the duplicate indices, duplicate list and first-member list equal the specification, and removing the reported reactions leaves one per class; for real reactions (permutations, electron spellings, differing windows/types) every selection of <=3 from a pool of 10 agrees with an independent equivalence per mode; __eq__/__hash__ consistency for all pairs.",
                 note="Bounded list lengths and pools; CrossHair's own soundness; string modes compare printed names by documentation."),
+    "C16": dict(engine=E1, cat="translation_validation", sec="6 C16",
+                technique="symbolic execution of the compiled InitRenorm / RenormAbundance / GetElementAbund / GetHNuclei + SMT (non-linear real arithmetic): with the linear solve as the constraint A(ab) r = b, element totals after renormalisation equal reference ratio x hydrogen nuclei for all ab > 0",
+                text="For networks with multi-element molecules, ions, isotopologues/ortho-para species, ice species and dust grains: z3 shows for all positive abundances and all solutions r that every element total after RenormAbundance is b_i*H, that H is preserved when b_H=1, that electrons are untouched, that GetElementAbund is the count-weighted sum, that A(ab)*1 is the current ratio vector and every factor is 1 at r=1 (identity), and that no term divides by the literal 0.0.",
+                note="The LU/SUNLinSol solve is modelled by its defining equation; nonsingular A assumed for uniqueness; real arithmetic; elements are the atomic species present (generator's definition)."),
     "C19": dict(engine=E1, cat="model_checking", sec="6 C19",
                 technique="bounded model checking of the compiled Solve/HandleError IR with a nondeterministic integrator stub (symbolic flags and partial times, merged states) + one SMT-discharged inductive step per recovery level (loop back edge cut); scripted-mock native replay",
                 text="Every fault sequence over the recovery ladder is covered by (base) Solve up to HandleError establishes the invariant, (step) from any invariant state one level either returns SUCCESS with exactly y0+dt, returns FAIL, or re-establishes the invariant, with every flag an arbitrary integer and every partial time an arbitrary real; plus end-to-end monolithic queries and concrete-flag/symbolic-time scripts through all five levels; odeint Observer and Solve are decided on their compiled IR.",
